@@ -4,7 +4,7 @@
 //! (`Database::execute`, `Database::session` + `Session::{execute, commit_transaction, abort_transaction}`), each with its own small
 //! program, started together behind a barrier and paced by a seeded mix of spins / yields / short sleeps.  Every call is
 //! bracketed by two tickets of one global counter (taken immediately before the call is issued and immediately after it has
-//! returned), runs under a 10 s watchdog, and its outcome is recorded.  The observation is judged by the Lean driver
+//! returned), runs under a watchdog (10 s bound + 10 s grace, see GRACE_MS), and its outcome is recorded.  The observation is judged by the Lean driver
 //! (`Driver/Threads.lean`): no internal error, `checkSerialSI` accepts, final contents agree.
 //!
 //! Case syntax (one line):
@@ -27,7 +27,7 @@
 //! Observation syntax:
 //!   <kind> <call> <call> … | <table>=[rows] …
 //!   kind   run | interr (some call failed with an unexpected class) | hang:<t<i>#<k>,…> (calls that did not return within
-//!          10 s; k = index within the thread) | panic@<file:line>[,hang:…] (first panic of any thread of the process during the case)
+//!          the bound plus grace; k = index within the thread) | panic@<file:line>[,hang:…] (first panic of any thread of the process during the case)
 //!   call   t<i>:<t0>:<t1>:<out>              out as engine `hist` (ok | ok<n> | [rows] | conflict | constraint | … | nosession)
 //!   final contents are read by the harness after all client threads have finished (absent after a hang: `-`)
 use super::hist::{self, Op as HOp, Stmt, Table};
@@ -46,7 +46,12 @@ pub fn generated() -> Option<(&'static str, String)> {
     None
 }
 
+/// bound on one call
 const CALL_TIMEOUT_MS: u64 = 10_000;
+/// a call that is over the bound is given this much longer before it is declared hung: a deadlock never returns, a stall of
+/// the machine (seen by other engines while many builds were running) does; a call that returns late is reported in the
+/// diagnostics (`slow-call`) and judged like any other
+const GRACE_MS: u64 = 10_000;
 
 // ------------------------------------------------------------------------------------------------ case syntax
 
@@ -412,7 +417,11 @@ fn client(
             },
         };
         let t1 = ticket.fetch_add(1, Ordering::SeqCst);
-        sh.in_call_since.store(0, Ordering::SeqCst);
+        let since = sh.in_call_since.swap(0, Ordering::SeqCst);
+        let took = (1 + start.elapsed().as_millis() as u64).saturating_sub(since);
+        if took > CALL_TIMEOUT_MS {
+            diag.push(format!("slow-call {}ms", took));
+        }
         sh.recs.lock().unwrap().push(CallRec { t0, t1, out, must_fail: matches!(op, TOp::SubQ(_)) });
         if !diag.is_empty() {
             sh.diag.lock().unwrap().extend(diag);
@@ -431,7 +440,7 @@ fn with_timeout<T: Send + 'static>(f: impl FnOnce() -> T + Send + 'static) -> Op
     std::thread::spawn(move || {
         let _ = tx.send(f());
     });
-    rx.recv_timeout(Duration::from_millis(CALL_TIMEOUT_MS)).ok()
+    rx.recv_timeout(Duration::from_millis(CALL_TIMEOUT_MS + GRACE_MS)).ok()
 }
 
 pub fn run_case(line: &str) -> String {
@@ -514,7 +523,7 @@ fn run_in(dir: &std::path::Path, pc: ParsedCase) -> String {
         let now = 1 + start.elapsed().as_millis() as u64;
         for (tid, sh) in &shared {
             let since = sh.in_call_since.load(Ordering::SeqCst);
-            if since != 0 && now > since + CALL_TIMEOUT_MS {
+            if since != 0 && now > since + CALL_TIMEOUT_MS + GRACE_MS {
                 hung.push(format!("t{}#{}", tid, sh.recs.lock().unwrap().len()));
             }
         }
